@@ -144,10 +144,12 @@ Fixpoint cp_loop (now : N) (s : pstate) (ms : list (list N * msg)) : pstate * li
 Record pst := { ps_hist : list N; ps_x : pstate }.
 Definition pst0 : pst := {| ps_hist := []; ps_x := [] |}.
 
-(* packageParse.parse(data) at time now: new state, delivered messages, returned error *)
+(* packageParse.parse(data) at time now: new state, delivered messages, returned error.
+   Transfers older than 60 s are dropped BEFORE the messages of the read are processed (fix 4f00aa1:
+   late packets can no longer complete a stale transfer); the pass at the end drops and re-requests *)
 Definition parse (now : N) (st : pst) (d : list N) : pst * list pmsg * option N :=
   let o := unpack (ps_hist st) d in
-  let '(s1, outs) := cp_loop now (ps_x st) (u_msgs o) in
+  let '(s1, outs) := cp_loop now (delete_timeout now (ps_x st)) (u_msgs o) in
   let '(s2, rrs) := housekeeping now s1 in
   ({| ps_hist := u_hist o; ps_x := s2 |}, outs ++ map rereq_pmsg rrs, u_err o).
 
@@ -164,14 +166,16 @@ Fixpoint run_script (now : N) (st : pst) (l : list sstep) : list (pst * list pms
 (* ---------------- the same machine, message by message (for the theorems) ---------------- *)
 (* A connection's life is a list of timed events: a decoded message handed to completePack, or
    the end of a read (the housekeeping at the end of parse).  Any grouping of messages into
-   reads is some placement of EvEnd events. *)
+   reads is some placement of EvEnd events.  The expiry pass at the beginning of a read is part of
+   every message event: within one read (one instant) it acts at most once, because what
+   completePack creates at time now is not older than 60 s at time now (Proofs: cp_loop_is_run). *)
 Inductive event := EvMsg (m : msg) | EvEnd.
 Inductive eout := ONone | OComplete (id : N) (body : list N) | ORereq (l : list rereq).
 
 Definition step (now : N) (s : pstate) (e : event) : pstate * eout :=
   match e with
   | EvMsg m =>
-    let '(s1, r) := complete_pack now s m in
+    let '(s1, r) := complete_pack now (delete_timeout now s) m in
     (s1, match r with Some b => OComplete (m_id m) b | None => ONone end)
   | EvEnd => let '(s1, rrs) := housekeeping now s in (s1, ORereq rrs)
   end.
@@ -317,14 +321,15 @@ Fixpoint owns_timed (st : pst) (reads : list (N * list N)) : list (list pmsg) :=
   match reads with
   | [] => []
   | (now, d) :: t =>
-    snd (cp_loop now (ps_x st) (u_msgs (unpack (ps_hist st) d))) :: owns_timed (fst (fst (parse now st d))) t
+    snd (cp_loop now (delete_timeout now (ps_x st)) (u_msgs (unpack (ps_hist st) d))) :: owns_timed (fst (fst (parse now st d))) t
   end.
-(* the expiry pass never drops a transfer during the history: at the end of every read (after its
-   messages were processed) no pending transfer was created more than 60 s earlier *)
+(* the expiry pass never drops a transfer during the history: neither at the beginning of a read
+   nor at its end (after its messages were processed) was a pending transfer created more than
+   60 s earlier *)
 Fixpoint no_expiry (st : pst) (reads : list (N * list N)) : Prop :=
   match reads with
   | [] => True
   | (now, d) :: t =>
     let s1 := fst (cp_loop now (ps_x st) (u_msgs (unpack (ps_hist st) d))) in
-    delete_timeout now s1 = s1 /\ no_expiry (fst (fst (parse now st d))) t
+    delete_timeout now (ps_x st) = ps_x st /\ delete_timeout now s1 = s1 /\ no_expiry (fst (fst (parse now st d))) t
   end.
